@@ -239,8 +239,18 @@ pub broadcast proof fn lemma_fsum_ref_is_fsum(rem: Seq<&f64>, s: Seq<f64>, k: in
 // (idealised) the additive identity Iterator::sum starts from denotes 0
 pub axiom fn ax_rv_sum_init() ensures rv(fsum_init()) == 0real;
 
-pub assume_specification<T: Clone> [<[T]>::fill] (s: &mut [T], v: T)
-    ensures final(s)@.len() == old(s)@.len(), forall|i: int| 0 <= i < old(s)@.len() ==> #[trigger] final(s)@[i] == v;
+// ---- extracted from src/error.rs: enum StratError ----
+#[derive(PartialEq, Eq)]
+pub enum StratError {
+    /// Returned when the game doesn't have a specific infoset
+    InvalidInfoset,
+    /// Returned when the game doesn't have an action for an infoset
+    InvalidAction,
+    /// Returned when a probability for an action is negative, nan, or infinite
+    InvalidProbability,
+    /// Returned when no action in an infoset was assigned positive probability
+    UninitializedInfoset,
+}
 
 // sums of idealised values and the normalisation lemmas shared by avg_strat / import / truncate units
 pub open spec fn rsum(s: Seq<f64>, k: int) -> real decreases k {
@@ -272,58 +282,102 @@ pub proof fn lemma_rsum_div(a: Seq<f64>, b: Seq<f64>, n: real, k: int)
     }
 }
 
-// ---- extracted from src/solve/data.rs: fn avg_strat ----
-pub fn avg_strat(cum_strat: &mut [f64]) 
+// ---- extracted from src/lib.rs: impl Game / fn strat_into_box_slow ----
+pub fn strat_into_box_slow__normalise(vals: &mut [f64]) -> (out: Result<(), StratError>)
     requires
-        old(cum_strat)@.len() >= 1,
+        old(vals)@.len() >= 1,
     ensures
-        final(cum_strat)@.len() == old(cum_strat)@.len(),
-        // nothing accumulated: exactly uniform
-        rsum(old(cum_strat)@, old(cum_strat)@.len() as int) == 0real ==>
-            forall|i: int| 0 <= i < old(cum_strat)@.len() ==> rv(#[trigger] final(cum_strat)@[i]) == 1real / (old(cum_strat)@.len() as real), // @ob C05.V.avg_strat.uniform_when_empty
-        // otherwise every entry is divided by the total ...
-        rsum(old(cum_strat)@, old(cum_strat)@.len() as int) != 0real ==>
-            forall|i: int| 0 <= i < old(cum_strat)@.len() ==> rv(#[trigger] final(cum_strat)@[i]) == rv(old(cum_strat)@[i]) / rsum(old(cum_strat)@, old(cum_strat)@.len() as int), // @ob C05.V.avg_strat.normalised
-        // ... so the returned action probabilities sum to one
-        rsum(old(cum_strat)@, old(cum_strat)@.len() as int) != 0real ==> rsum(final(cum_strat)@, old(cum_strat)@.len() as int) == 1real, // @ob C05.V.avg_strat.sums_to_one
+        final(vals)@.len() == old(vals)@.len(),
+        // no positive weight in the infoset: the documented error, nothing written
+        rsum(old(vals)@, old(vals)@.len() as int) == 0real ==> out == Err::<(), StratError>(StratError::UninitializedInfoset) && final(vals)@ == old(vals)@, // @ob C14.V.normalise.uninitialized
+        // otherwise every action gets its weight divided by the infoset total, and the infoset sums to one
+        rsum(old(vals)@, old(vals)@.len() as int) != 0real ==> out is Ok
+            && (forall|i: int| 0 <= i < old(vals)@.len() ==> rv(#[trigger] final(vals)@[i]) == rv(old(vals)@[i]) / rsum(old(vals)@, old(vals)@.len() as int))
+            && rsum(final(vals)@, old(vals)@.len() as int) == 1real, // @ob C14.V.normalise.weight_over_total
 {
 broadcast use fl; broadcast use ideal;
 proof { ax_obeys(); ax_rv_lits(); ax_rv_sum_init(); }
-broadcast use ideal_casts;
-let ghost s0 = cum_strat@;
-let ghost n = cum_strat@.len();
+let ghost s0 = vals@;
+let ghost n = vals@.len();
 proof { lemma_fsum_rsum(s0, n as int); }
 broadcast use lemma_fsum_ref_is_fsum;
 
-    let norm: f64 = __sum(cum_strat.iter());
-    if norm == 0.0 {
-        cum_strat.fill(1.0 / __as_f64(cum_strat.len()));
-    } else {
-        proof {
-    broadcast use lemma_fsum_ref_is_fsum;
-    assert(fsum(s0, n as int) == fsum(s0, n as int));
-    assert(norm == fsum(s0, n as int));
-}
-for prob in it: cum_strat.iter_mut() 
+            let total: f64 = __sum(vals.iter());
+            if total == 0.0 {
+                return Err(StratError::UninitializedInfoset);
+            } else {
+                proof { assert(total == fsum(s0, n as int)); }
+for val in it: vals.iter_mut() 
 invariant
     it.snapshot@.remaining().len() == n, 0 <= it.index@ <= n,
     forall|i: int| 0 <= i < n ==> *(#[trigger] it.snapshot@.remaining()[i]) == s0[i],
-    rv(norm) == rsum(s0, n as int), rv(norm) != 0real,
-    forall|i: int| 0 <= i < it.index@ ==> rv(*final(#[trigger] it.snapshot@.remaining()[i])) == rv(s0[i]) / rv(norm),
+    rv(total) == rsum(s0, n as int), rv(total) != 0real,
+    forall|i: int| 0 <= i < it.index@ ==> rv(*final(#[trigger] it.snapshot@.remaining()[i])) == rv(s0[i]) / rv(total),
 ensures
-    forall|i: int| 0 <= i < n ==> rv(*final(#[trigger] it.snapshot@.remaining()[i])) == rv(s0[i]) / rv(norm),
+    forall|i: int| 0 <= i < n ==> rv(*final(#[trigger] it.snapshot@.remaining()[i])) == rv(s0[i]) / rv(total),
 {
 broadcast use fl; broadcast use ideal;
 proof { ax_obeys(); ax_rv_lits(); }
 
-            *prob = *prob / ( norm);
-        }
+                    *val = *val / ( total);
+                }
 proof {
-    lemma_rsum_div(s0, cum_strat@, rv(norm), n as int);
-    assert(rsum(s0, n as int) / rv(norm) == 1real) by(nonlinear_arith) requires rv(norm) == rsum(s0, n as int), rv(norm) != 0real;
+    lemma_rsum_div(s0, vals@, rv(total), n as int);
+    assert(rsum(s0, n as int) / rv(total) == 1real) by(nonlinear_arith) requires rv(total) == rsum(s0, n as int), rv(total) != 0real;
 }
 
-    }
+            }
+        
+Ok(())
+}
+
+// ---- extracted from src/lib.rs: impl Game / fn strat_into_box ----
+pub fn strat_into_box__normalise(vals: &mut [f64]) -> (out: Result<(), StratError>)
+    requires
+        old(vals)@.len() >= 1,
+    ensures
+        final(vals)@.len() == old(vals)@.len(),
+        // no positive weight in the infoset: the documented error, nothing written
+        rsum(old(vals)@, old(vals)@.len() as int) == 0real ==> out == Err::<(), StratError>(StratError::UninitializedInfoset) && final(vals)@ == old(vals)@, // @ob C14.V.normalise.uninitialized
+        // otherwise every action gets its weight divided by the infoset total, and the infoset sums to one
+        rsum(old(vals)@, old(vals)@.len() as int) != 0real ==> out is Ok
+            && (forall|i: int| 0 <= i < old(vals)@.len() ==> rv(#[trigger] final(vals)@[i]) == rv(old(vals)@[i]) / rsum(old(vals)@, old(vals)@.len() as int))
+            && rsum(final(vals)@, old(vals)@.len() as int) == 1real, // @ob C14.V.normalise.weight_over_total
+{
+broadcast use fl; broadcast use ideal;
+proof { ax_obeys(); ax_rv_lits(); ax_rv_sum_init(); }
+let ghost s0 = vals@;
+let ghost n = vals@.len();
+proof { lemma_fsum_rsum(s0, n as int); }
+broadcast use lemma_fsum_ref_is_fsum;
+
+            let total: f64 = __sum(vals.iter());
+            if total == 0.0 {
+                return Err(StratError::UninitializedInfoset);
+            } else {
+                proof { assert(total == fsum(s0, n as int)); }
+for val in it: vals.iter_mut() 
+invariant
+    it.snapshot@.remaining().len() == n, 0 <= it.index@ <= n,
+    forall|i: int| 0 <= i < n ==> *(#[trigger] it.snapshot@.remaining()[i]) == s0[i],
+    rv(total) == rsum(s0, n as int), rv(total) != 0real,
+    forall|i: int| 0 <= i < it.index@ ==> rv(*final(#[trigger] it.snapshot@.remaining()[i])) == rv(s0[i]) / rv(total),
+ensures
+    forall|i: int| 0 <= i < n ==> rv(*final(#[trigger] it.snapshot@.remaining()[i])) == rv(s0[i]) / rv(total),
+{
+broadcast use fl; broadcast use ideal;
+proof { ax_obeys(); ax_rv_lits(); }
+
+                    *val = *val / ( total);
+                }
+proof {
+    lemma_rsum_div(s0, vals@, rv(total), n as int);
+    assert(rsum(s0, n as int) / rv(total) == 1real) by(nonlinear_arith) requires rv(total) == rsum(s0, n as int), rv(total) != 0real;
+}
+
+            }
+        
+Ok(())
 }
 
 
